@@ -233,6 +233,10 @@ func (d *Driver) exec(st *Step) {
 			w.IdP.SetVerified(st.User, true)
 		case "adduser":
 			w.IdP.AddUser(st.User, true, st.Groups...)
+		case "nest":
+			w.IdP.Nest(st.Name, st.Str, true)
+		case "unnest":
+			w.IdP.Nest(st.Name, st.Str, false)
 		case "deletegroup":
 			w.IdP.DeleteGroup(st.Name, true)
 		case "restoregroup":
